@@ -37,4 +37,10 @@ CLAIMED = {
               "and backslash/colon are literal name bytes. Thorough adds a 45 s native fuzz campaign (~1M executions) over (subject, helper, position, name bytes)."),
         note="validity oracle is the standard library; 'no OS path reached the kernel' is approximated by directory + sentinel snapshots; ErrNotImplemented accepted where the helper is unsupported for valid names too",
     ),
+    "C07": dict(
+        technique="twin-world (metamorphic) state-machine property testing with rapid: op(Sub(fs,dir), name) vs op(fs, dir/name) from identical states; whole-state equality of every constituent FS",
+        text=("Two identical parents are built from the same generated setup; histories are applied through Sub(parent, dir) in one and directly at dir/name in the other; results, error class/type/paths and the complete state "
+              "of every constituent file system are compared after every step, which also shows that nothing outside dir is read or changed differently. Parents: mem, mount.FS, os.FS, an Open-only FS, a Sub view. Sampled exploration."),
+        note="dir above a mount point is excluded while known finding C07:sub-above-mountpoint reproduces; symlinks not generated; error paths of MkdirAll/RemoveAll and of handle-level fallbacks are compared by class only",
+    ),
 }
